@@ -87,7 +87,8 @@ def run(tier, seed):
     res.rule = ("per kernel: boundary-directed lane values (carry boundaries, [p,2^64) band, sign-bit boundaries of the shifted "
                 "compare, 32-bit-compare corner b_h=0xFFFFFFFF) satisfying the kernel's documented operand assumption; "
                 "each vector = 4 independent lane cases; non-trivial = some lane in the non-canonical band or above 2^63")
-    res.assumptions = ["intrinsic semantics of Isa/Avx2.lean (executed against this CPU in this run)",
+    res.assumptions = ["register operands are values in the model; the in-place call patterns f(x, x, b) / f(x, a, x) (output register object = an input register object) are exercised on the implementation side (variants __ra<o>_<k>), not proved",
+                       "intrinsic semantics of Isa/Avx2.lean (executed against this CPU in this run)",
                        "operand assumptions exactly as documented in the header (stated as hypotheses of the theorems)"]
     st = run_gen()
     standard_proof_phase(res, MODULE, "C02_", st, ["Scalar", "Avx2"], thorough=(tier == "thorough"))
@@ -106,5 +107,5 @@ def run(tier, seed):
             res.broken.append(("harness build (%s)" % fl, err))
             continue
         if drv:
-            corr_campaign(res, h, drv, make_cases(seed + len(fl), n, names), fl)
+            corr_campaign(res, h, drv, with_reg_alias(make_cases(seed + len(fl), n, names), st), fl)
     return res.finish()
